@@ -22,6 +22,7 @@ type prnTok struct {
 	text  string
 	hint  prnHint
 	depth int
+	lock  bool // the gap before this token is never redrawn (keeps a spelling canonical)
 }
 
 type prnBuilder struct {
@@ -32,6 +33,10 @@ type prnBuilder struct {
 	syntax  string // "proto2", "proto3", "2023"
 	uniq    int
 	usedOpt [5]bool
+	// spacedStyle: <= 0 spaces only, placement drawn per name; 1-3 = spaces only, one placement;
+	// 4 = block comment inside the parentheses
+	spacedStyle int
+	mixCanon    bool // spaced sub-family: some occurrences of a name are spelled canonically
 }
 
 func (b *prnBuilder) t(h prnHint, texts ...string) {
@@ -685,6 +690,9 @@ func prnGenPlain(b *prnBuilder) []prnTok {
 func prnPerturb(r *Rand, toks []prnTok, k int) string {
 	gaps := map[int]string{}
 	pick := func(i int) {
+		if toks[i].lock {
+			return
+		}
 		need := i > 0 && prnNeedSep(toks[i-1].text, toks[i].text)
 		gaps[i] = prnPickTrivia(r, need)
 	}
@@ -819,4 +827,308 @@ func prnTemplates() [][]prnTok {
 			b.tight("}")
 		}),
 	}
+}
+
+// ---------------------------------------------------------------- large-header family
+//
+// Files whose header (syntax, package, imports, file options) has 13-40 declarations in
+// non-canonical order, with REPEATED custom options set several times with distinct values, so
+// that any reordering of same-named option declarations by the formatter's sort changes the
+// compiled descriptor. The same is done inside bodies (message / field / enum / enum value /
+// service / method options). spaced = the extension names are written with trivia inside the
+// parentheses (`( tags )`, `(/*c*/ tags)`), a separate sub-family: Path.Canonicalized() returns
+// "" for them, which gives all such options the same sort key.
+
+var prnHdrStdOptions = [][2]string{
+	{"java_package", `"com.x"`}, {"java_outer_classname", `"Outer"`}, {"java_multiple_files", "true"},
+	{"go_package", `"example.com/x"`}, {"optimize_for", "SPEED"}, {"cc_enable_arenas", "true"},
+	{"objc_class_prefix", `"OBJ"`}, {"csharp_namespace", `"Cs"`}, {"swift_prefix", `"Sw"`},
+	{"php_class_prefix", `"Php"`}, {"php_namespace", `"Ns"`}, {"ruby_package", `"Rb"`},
+	{"deprecated", "true"}, {"cc_generic_services", "false"}, {"java_generic_services", "false"},
+	{"py_generic_services", "false"}, {"php_metadata_namespace", `"Meta"`}, {"java_string_check_utf8", "true"},
+}
+
+// extName emits `(name)`; canonical spelling is locked against perturbation.
+func (b *prnBuilder) extName(h prnHint, spaced bool, lead []string, name string) {
+	b.t(h, lead...)
+	if len(lead) > 0 {
+		b.t(prnSp, "(")
+	} else {
+		b.t(h, "(")
+	}
+	if !spaced || (b.mixCanon && b.r.Chance(1, 3)) {
+		b.toks = append(b.toks, prnTok{text: name, hint: prnTight, depth: b.depth, lock: true},
+			prnTok{text: ")", hint: prnTight, depth: b.depth, lock: true})
+		return
+	}
+	style := b.spacedStyle
+	if style <= 0 {
+		style = 1 + b.r.Intn(3) // spaces only, a different placement per name
+	}
+	switch style - 1 {
+	case 0:
+		b.t(prnSp, name)
+		b.t(prnSp, ")")
+	case 1:
+		b.t(prnSp, name)
+		b.tight(")")
+	case 2:
+		b.tight(name)
+		b.t(prnSp, ")")
+	default:
+		b.tight("/*c*/")
+		b.t(prnSp, name)
+		b.tight(")")
+	}
+}
+
+func prnShuffle[T any](r *Rand, xs []T) {
+	for i := len(xs) - 1; i > 0; i-- {
+		j := r.Intn(i + 1)
+		xs[i], xs[j] = xs[j], xs[i]
+	}
+}
+
+// prnGenHeaderFile: one file of the large-header family.
+func prnGenHeaderFile(r *Rand, spaced bool) []prnTok {
+	b := &prnBuilder{r: r, syntax: Pick(r, []string{"proto2", "proto3", "proto3", "2023"})}
+	if spaced {
+		b.spacedStyle = Pick(r, []int{-1, 1, 2, 3, 4})
+		b.mixCanon = r.Chance(1, 2)
+	}
+	lbl := func() string {
+		if b.syntax == "proto2" {
+			return "optional"
+		}
+		return ""
+	}
+	switch b.syntax {
+	case "2023":
+		b.t(prnTight, "edition", "=", `"2023"`)
+	default:
+		b.t(prnTight, "syntax", "=", `"`+b.syntax+`"`)
+	}
+	b.tight(";")
+	val := 0
+	next := func() string { val++; return fmt.Sprintf(`"v%d"`, val) }
+	var header []func()
+	header = append(header, func() {
+		b.t(prnNl, "package", "hdr")
+		b.tight(".", "pkg", ";")
+	})
+	imports := []string{"google/protobuf/descriptor.proto"}
+	others := []string{"google/protobuf/any.proto", "google/protobuf/empty.proto", "google/protobuf/timestamp.proto",
+		"google/protobuf/duration.proto", "google/protobuf/wrappers.proto"}
+	prnShuffle(r, others)
+	imports = append(imports, others[:1+r.Intn(4)]...)
+	if r.Chance(1, 2) {
+		prnSortStrings(imports) // already in canonical order: only the options can move
+	} else {
+		prnShuffle(r, imports)
+	}
+	for i, imp := range imports {
+		imp := imp
+		mod := ""
+		if i > 0 && imp != "google/protobuf/descriptor.proto" {
+			mod = Pick(r, []string{"", "", "public", "weak"})
+			if mod == "weak" && b.syntax == "2023" {
+				mod = ""
+			}
+		}
+		header = append(header, func() {
+			b.t(prnNl, "import")
+			if mod != "" {
+				b.t(prnSp, mod)
+			}
+			b.t(prnSp, `"`+imp+`"`)
+			b.tight(";")
+		})
+	}
+	var opts []func()
+	std := append([][2]string(nil), prnHdrStdOptions...)
+	if b.syntax == "2023" {
+		std = std[:len(std)-1] // java_string_check_utf8 is not allowed with editions
+	}
+	prnShuffle(r, std)
+	for _, o := range std[:4+r.Intn(10)] {
+		o := o
+		opts = append(opts, func() {
+			b.t(prnNl, "option", o[0], "=", o[1])
+			b.tight(";")
+		})
+	}
+	custom := func(name string, v func() string) func() {
+		return func() {
+			b.extName(prnNl, spaced, []string{"option"}, name)
+			b.t(prnSp, "=", v())
+			b.tight(";")
+		}
+	}
+	for i, n := 0, 3+r.Intn(4); i < n; i++ {
+		opts = append(opts, custom("tags", next))
+	}
+	for i, n := 0, r.Intn(4); i < n; i++ {
+		k := i
+		opts = append(opts, custom("nums", func() string { return fmt.Sprint(10 + k) }))
+	}
+	if r.Chance(1, 2) {
+		opts = append(opts, custom("zeta", next))
+	}
+	if r.Chance(1, 2) {
+		opts = append(opts, custom("alpha", next))
+	}
+	// keep the relative order of the repeated options as drawn, then interleave everything
+	if r.Chance(3, 4) {
+		prnShuffle(r, opts)
+	}
+	// a few options travel behind the first body declarations
+	late := 0
+	if len(opts) > 6 && r.Chance(1, 2) {
+		late = 1 + r.Intn(3)
+	}
+	header = append(header, opts[:len(opts)-late]...)
+	if r.Chance(1, 2) {
+		// imports and options interleaved; the package line anywhere
+		prnShuffle(r, header)
+	}
+	for _, f := range header {
+		f()
+	}
+	ext := func(target string, fields ...[3]string) {
+		b.t(prnNl2, "extend", "google")
+		b.tight(".", "protobuf", ".", target)
+		b.t(prnSp, "{")
+		b.depth++
+		for _, f := range fields {
+			if f[0] != "" {
+				b.t(prnNl, f[0], f[1], f[2])
+			} else {
+				b.t(prnNl, f[1], f[2])
+			}
+			val++
+			b.t(prnSp, "=", fmt.Sprint(50000+val))
+			b.tight(";")
+		}
+		b.depth--
+		b.t(prnNl, "}")
+	}
+	ext("FileOptions", [3]string{"repeated", "string", "tags"}, [3]string{"repeated", "int32", "nums"},
+		[3]string{lbl(), "string", "zeta"}, [3]string{lbl(), "string", "alpha"})
+	for _, f := range opts[len(opts)-late:] {
+		f()
+	}
+	ext("MessageOptions", [3]string{"repeated", "string", "mtags"})
+	ext("FieldOptions", [3]string{"repeated", "string", "ftags"})
+	ext("EnumOptions", [3]string{"repeated", "string", "etags"})
+	ext("EnumValueOptions", [3]string{"repeated", "string", "evtags"})
+	ext("ServiceOptions", [3]string{"repeated", "string", "stags"})
+	ext("MethodOptions", [3]string{"repeated", "string", "rtags"})
+	// bodies with repeated options set several times, interleaved with other members
+	bodyOpts := func(name string, n int, plain string) []func() {
+		var out []func()
+		for i := 0; i < n; i++ {
+			out = append(out, func() {
+				b.extName(prnNl, spaced, []string{"option"}, name)
+				b.t(prnSp, "=", next())
+				b.tight(";")
+			})
+		}
+		if plain != "" {
+			out = append(out, func() {
+				b.t(prnNl, "option", plain, "=", "true")
+				b.tight(";")
+			})
+		}
+		return out
+	}
+	compact := func(name string, n int) {
+		b.t(prnSp, "[")
+		var parts []func()
+		for i := 0; i < n; i++ {
+			parts = append(parts, func() {
+				b.extName(prnTight, spaced, nil, name)
+				b.t(prnSp, "=", next())
+			})
+		}
+		parts = append(parts, func() { b.t(prnTight, "deprecated", "=", "true") })
+		prnShuffle(r, parts)
+		for i, f := range parts {
+			if i > 0 {
+				b.tight(",")
+			}
+			start := len(b.toks)
+			f()
+			if i > 0 && start < len(b.toks) {
+				b.toks[start].hint = prnSp
+			}
+		}
+		b.tight("]")
+	}
+	// message
+	b.t(prnNl2, "message", "HM", "{")
+	b.depth++
+	members := bodyOpts("mtags", 2+r.Intn(4), "deprecated")
+	for i := 1; i <= 2+r.Intn(3); i++ {
+		i := i
+		members = append(members, func() {
+			if l := lbl(); l != "" {
+				b.t(prnNl, l, "int32")
+			} else {
+				b.t(prnNl, "int32")
+			}
+			b.t(prnSp, fmt.Sprintf("f%d", i), "=", fmt.Sprint(i))
+			if r.Chance(2, 3) {
+				compact("ftags", 2+r.Intn(3))
+			}
+			b.tight(";")
+		})
+	}
+	prnShuffle(r, members)
+	for _, f := range members {
+		f()
+	}
+	b.depth--
+	b.t(prnNl, "}")
+	// enum
+	b.t(prnNl2, "enum", "HE", "{")
+	b.depth++
+	members = bodyOpts("etags", 2+r.Intn(3), "deprecated")
+	members = append(members, func() {}) // placeholder keeps the first value first
+	prnShuffle(r, members)
+	b.t(prnNl, "HE_ZERO", "=", "0")
+	compact("evtags", 2+r.Intn(3))
+	b.tight(";")
+	for _, f := range members {
+		f()
+	}
+	b.t(prnNl, "HE_ONE", "=", "1")
+	b.tight(";")
+	b.depth--
+	b.t(prnNl, "}")
+	// service
+	b.t(prnNl2, "service", "HS", "{")
+	b.depth++
+	members = bodyOpts("stags", 2+r.Intn(3), "deprecated")
+	members = append(members, func() {
+		b.t(prnNl, "rpc", "Call")
+		b.tight("(", "HM", ")")
+		b.t(prnSp, "returns", "(")
+		b.tight("HM", ")")
+		b.t(prnSp, "{")
+		b.depth++
+		inner := bodyOpts("rtags", 2+r.Intn(3), "deprecated")
+		prnShuffle(r, inner)
+		for _, f := range inner {
+			f()
+		}
+		b.depth--
+		b.t(prnNl, "}")
+	})
+	prnShuffle(r, members)
+	for _, f := range members {
+		f()
+	}
+	b.depth--
+	b.t(prnNl, "}")
+	return b.toks
 }
